@@ -59,10 +59,12 @@ Theorem C20_aggregate_ok_each : forall l,
   use_keyspace_result l = AOk -> forall x, In x l -> x = COk \/ exists t, x = CBroken t.
 Proof. exact aggregate_ok_each. Qed.
 
-(* and a pool answers with another error exactly when one of the connections it covered did *)
+(* and a pool whose use task has finished answers with another error exactly when one of the
+   connections it covered answered with one *)
 Theorem C20_pool_answer_err : forall r,
-  answer_of r = PAErr <-> exists c, In c (cov r) /\ is_err (outcome (stat r c)) = true.
-Proof. exact answer_of_err. Qed.
+  forallb (fun c => is_done (stat r c)) (cov r) = true ->
+  (answer_of r = PAErr <-> exists c t, In c (cov r) /\ stat r c = Done (CErr t)).
+Proof. exact answer_of_err_done. Qed.
 
 (* the function's contract: it must not be called on an empty list *)
 Theorem C20_aggregate_panic : forall l, use_keyspace_result l = APanic <-> l = [].
@@ -147,6 +149,15 @@ Theorem C20_accept_sound : forall k0 t1 u k t2 t3 q t4 x t5,
   x = Some (canon k).
 Proof. exact accept_sound. Qed.
 
+(* the driver says `viol` for a scenario only when [prop_violb] holds on its trace; such a trace is
+   never accepted (so a failure of the property can never come out as `ok`) *)
+Theorem C20_viol_rejected : forall k0 tr, prop_violb tr = true -> accept_trace k0 tr = false.
+Proof. exact prop_viol_not_accepted. Qed.
+
+(* [valid_nameb] is the boolean the driver evaluates for `viol` on names *)
+Theorem C20_valid_nameb : forall s, valid_nameb s = true <-> valid_name s.
+Proof. exact valid_nameb_spec. Qed.
+
 (* non-vacuity *)
 Example C20_ex_names :
   verify_name [97; 95; 90; 48]%N = Ok tt /\ verify_name [] = Err NEmpty /\
@@ -226,6 +237,37 @@ Example C20_ex_accept :
   accept_trace None [ECall 0 (ex_ks, false); ERet 0 true; EStart 2; EFrame 2 None] = false.
 Proof. split; vm_compute; reflexivity. Qed.
 
+(* anchors of the definitions the driver evaluates (accepting AND rejecting inputs) *)
+Example C20_ex_anchor_names :
+  valid_nameb [107; 95; 57]%N = true /\ valid_nameb [] = false /\ valid_nameb [107; 59]%N = false /\
+  valid_nameb (repeat 107%N 48) = true /\ valid_nameb (repeat 107%N 49) = false /\
+  valid_nameb [233]%N = false /\ valid_nameb [34; 107; 34]%N = false /\
+  List.length alphabet = 63 /\
+  parse_use [85; 83; 69; 32; 107]%N = Some ([107]%N, false) /\
+  parse_use [85; 83; 69; 32; 34; 107; 34]%N = Some ([107]%N, true) /\
+  parse_use [85; 83; 69; 32; 107; 32; 107]%N = None /\ parse_use [85; 83; 69; 32; 34; 107]%N = None /\
+  parse_use [117; 115; 101; 32; 107]%N = None /\ parse_use [85; 83; 69; 32]%N = None /\
+  canon ([75; 115]%N, false) = [107; 115]%N /\ canon ([75; 115]%N, true) = [75; 115]%N /\
+  eq_ci [75; 115]%N [107; 83]%N = true /\ eq_ci [75; 115]%N [107; 116]%N = false /\ eq_ci [107]%N [107; 107]%N = false.
+Proof. repeat split; vm_compute; reflexivity. Qed.
+Example C20_ex_anchor_trace :
+  (* the property predicate: violated / not violated *)
+  prop_violb [ECall 0 (ex_ks, false); ERet 0 true; EStart 1; EFrame 1 None] = true /\
+  prop_violb [ECall 0 (ex_ks, false); ERet 0 true; EStart 1; EFrame 1 (Some [107; 116]%N)] = true /\
+  prop_violb [ECall 0 (ex_ks, false); ERet 0 true; EStart 1; EFrame 1 (Some ex_ks)] = false /\
+  prop_violb [ECall 0 (ex_ks, false); EStart 1; ERet 0 true; EFrame 1 None] = false /\
+  prop_violb [ECall 0 (ex_ks, false); ERet 0 false; EStart 1; EFrame 1 None] = false /\
+  prop_violb [ECall 0 (ex_ks, false); ECall 1 ([97]%N, false); ERet 0 true; ERet 1 true; EStart 2; EFrame 2 None] = false /\
+  prop_violb [ECall 0 (ex_ks, false); ERet 0 true; ECall 1 ([97]%N, false); EStart 2; EFrame 2 None] = false /\
+  (* the acceptor is stricter than the property (rejections that are NOT violations) *)
+  accept_trace None [EStart 0; EFrame 0 (Some ex_ks)] = false /\
+  accept_trace None [ECall 0 (ex_ks, false); ERet 0 false; EStart 1; EFrame 1 (Some [97]%N)] = false /\
+  accept_trace None [ERet 0 true] = false /\ accept_trace None [EFrame 0 None] = false /\
+  (* and lenient where calls overlap *)
+  accept_trace None [ECall 0 (ex_ks, false); ECall 1 ([97]%N, false); ERet 0 true; ERet 1 true; EStart 2; EFrame 2 (Some [97]%N)] = true /\
+  accept_trace None [ECall 0 (ex_ks, false); ECall 1 ([97]%N, false); ERet 0 true; ERet 1 true; EStart 2; EFrame 2 (Some [98]%N)] = false.
+Proof. repeat split; vm_compute; reflexivity. Qed.
+
 Print Assumptions C20_name.
 Print Assumptions C20_name_err.
 Print Assumptions C20_statement.
@@ -244,3 +286,5 @@ Print Assumptions C20_name_rejected.
 Print Assumptions C20_only_valid_names_sent.
 Print Assumptions C20_new_nodes.
 Print Assumptions C20_accept_sound.
+Print Assumptions C20_viol_rejected.
+Print Assumptions C20_valid_nameb.
